@@ -3,6 +3,7 @@ package symx
 import (
 	"fmt"
 	"math/big"
+	"os"
 	"sort"
 	"strings"
 	"sync"
@@ -220,6 +221,9 @@ type pathCtx struct {
 }
 
 func (cx *pathCtx) abort(reason, detail string) {
+	if reason == "assume" && cx.cfg.DebugAborts && detail == "" {
+		detail = cx.stackString()
+	}
 	panic(pathAbort{reason, detail})
 }
 
@@ -467,6 +471,9 @@ func (cx *pathCtx) assertProp(c *Term, id string) {
 		cx.aSym++
 	case Unknown:
 		cx.aUnk++
+		if cx.cfg.DebugAborts {
+			fmt.Fprintf(os.Stderr, "[unknown assert] %s: %s\n", id, c.String())
+		}
 	case Sat:
 		m, ok := cx.s.Model(c, true)
 		cx.qAssert++
@@ -577,7 +584,7 @@ func (cx *pathCtx) choose(name string, lo, hi int) int {
 	if hi < lo {
 		cx.abort("assume", "empty IntRange "+name)
 	}
-	x := cx.declare(name, 64)
+	x := cx.declareNew(name, 64)
 	var idx int
 	if cx.concrete != nil {
 		v := toSigned(x.Eval(cx.concrete, map[*Term]*big.Int{}), 64).Int64()
@@ -606,6 +613,15 @@ func (cx *pathCtx) choose(name string, lo, hi int) int {
 	cx.s.Assert(cx.f.Cmp(OpEq, x, cx.f.ConstI(int64(v), 64)))
 	cx.choices = append(cx.choices, fmt.Sprintf("%s=%d", name, v))
 	return v
+}
+
+// declareNew is used by the harness API: a name may be introduced only once
+// per path (silent aliasing of two harness variables would weaken claims).
+func (cx *pathCtx) declareNew(name string, w int) *Term {
+	if _, ok := cx.varTerm[name]; ok {
+		cx.abort("engine-error", "harness variable "+name+" declared twice")
+	}
+	return cx.declare(name, w)
 }
 
 func (cx *pathCtx) declare(name string, w int) *Term {
